@@ -169,4 +169,32 @@ theorem inert_before (ls : List Label) (h : ∀ i, Label.init i ∉ ls) :
 example : winners (final [.emit 1, .init 3, .init 4, .emit 2, .init 3]) = [3] := by decide
 example : (final [.emit 1, .init 3, .init 4, .emit 2]).received = [(3, 2)] := by decide
 
+
+/-! ### Two slots never influence each other -/
+
+/-- the steps of a two-slot schedule that address slot `k` -/
+def only (k : Bool) (ls : List (Bool × Label)) : List Label := (ls.filter fun x => x.1 == k).map (·.2)
+
+/-- **Slots are independent.** Under every schedule over two slots, each slot ends in exactly the state it would
+    reach if only the steps addressed to it had been run: losing (or winning) the initialisation of one slot — on
+    whatever thread — never affects whether an initialisation of the other succeeds, what it observes or where its
+    events go. (So every single-slot theorem above applies to each slot of a process separately.) -/
+theorem slots_independent (ls : List (Bool × Label)) (s : State × State) :
+    (run2 s ls).1 = ((run s.1 (only false ls)).1, (run s.2 (only true ls)).1) := by
+  induction ls generalizing s with
+  | nil => rfl
+  | cons x rest ih =>
+    obtain ⟨k, l⟩ := x
+    cases k
+    · simp only [run2, step2, only, List.filter, List.map, Bool.false_eq_true, if_false, beq_self_eq_true, run]
+      rw [ih]
+      simp [only]
+    · simp only [run2, step2, only, List.filter, List.map, if_true, beq_self_eq_true, run]
+      rw [ih]
+      simp [only]
+
+example : ((run2 (init0, init0) [(false, .init 1), (false, .init 2), (true, .init 3), (true, .emit 9)]).1.2).received = [(3, 9)] := by
+  decide
+
+
 end EmitModel.C20
